@@ -199,7 +199,9 @@ int close(int fd) {
 }
 
 /* ---- stat family ---- */
-int statx(int dirfd, const char *path, int flags, unsigned int mask, struct statx *st) {
+static const char *launder(const char *p) { const char *volatile v = p; return v; }
+int statx(int dirfd, const char *path_, int flags, unsigned int mask, struct statx *st) {
+    const char *path = launder(path_);   /* std probes statx(0, NULL, ...): the header's nonnull attribute must not elide our checks */
     init(); REAL(statx);
     int byfd = (path == NULL || path[0] == 0) && (flags & AT_EMPTY_PATH);
     char full[4400]; const char *shown = path;
